@@ -236,7 +236,64 @@ func loadedField(v ssa.Value) (string, bool) {
 	if f, ok := v.(*ssa.Field); ok {
 		return fieldOf(f)
 	}
+	// a local copy of the field (a by-value parameter of an expanded helper), read whole or sliced whole
+	var cell *ssa.Alloc
+	switch x := v.(type) {
+	case *ssa.Slice:
+		if x.Low == nil && x.High == nil {
+			cell, _ = x.X.(*ssa.Alloc)
+		}
+	case *ssa.UnOp:
+		if x.Op == token.MUL {
+			cell, _ = x.X.(*ssa.Alloc)
+		}
+	}
+	if cell != nil {
+		if src := soleStore(cell); src != nil {
+			return loadedField(src)
+		}
+	}
 	return "", false
+}
+
+// soleStore: the one value ever stored into the local cell, when the cell is otherwise only read (loaded, sliced
+// whole for reading is not distinguished from writing, so slices are accepted only for arrays that are never indexed
+// for a store).
+func soleStore(a *ssa.Alloc) ssa.Value {
+	var src ssa.Value
+	for _, r := range *a.Referrers() {
+		switch x := r.(type) {
+		case *ssa.Store:
+			if x.Addr != ssa.Value(a) || src != nil {
+				return nil
+			}
+			src = x.Val
+		case *ssa.UnOp, *ssa.DebugRef:
+		case *ssa.Slice:
+			for _, rr := range *x.Referrers() {
+				switch y := rr.(type) {
+				case *ssa.Convert, *ssa.DebugRef:
+				case *ssa.Call:
+					if n := calleeName(&y.Call); n != "bytes.Equal" && n != "bytes.Compare" && n != "builtin.len" {
+						return nil
+					}
+				default:
+					return nil
+				}
+			}
+		case *ssa.IndexAddr:
+			for _, rr := range *x.Referrers() {
+				if u, ok := rr.(*ssa.UnOp); !ok || u.Op != token.MUL {
+					if _, dbg := rr.(*ssa.DebugRef); !dbg {
+						return nil
+					}
+				}
+			}
+		default:
+			return nil
+		}
+	}
+	return src
 }
 
 // isOwnID: v is a load of own.ID (the requester's own client ID).
